@@ -49,6 +49,13 @@ def main():
         for op in ("any", "all"):
             colls.append({"op": op, "sel": {"ty": "bexpr", "path": list(k)}, "mode": "value", "n1": "", "n2": "v"})
             colls.append({"op": op, "sel": {"ty": "bexpr", "path": list(k)}, "mode": "default", "n1": "v", "n2": ""})
+    # every binding mode over absent / empty / present collections, also the same name for index and value (an error only when an
+    # element gets bound)
+    for k in [("m", "zz"), ("zz",), ("m",), ("em",), ("l",), ("st", "M", "zz"), ("le",)]:
+        for op in ("any", "all"):
+            colls.append({"op": op, "sel": {"ty": "bexpr", "path": list(k)}, "mode": "both", "n1": "k", "n2": "k"})
+            colls.append({"op": op, "sel": {"ty": "bexpr", "path": list(k)}, "mode": "both", "n1": "k", "n2": "v"})
+            colls.append({"op": op, "sel": {"ty": "bexpr", "path": list(k)}, "mode": "index", "n1": "v", "n2": ""})
     world = vlib.make_world(["absent"], data["docs"], data["cfgs"], CFGS, atoms, list(range(b0, len(atoms))), colls, 2,
                             want_parts=True, want_classes=True)
     classes = {}
